@@ -96,7 +96,7 @@ OrphanNow(e) == \* the failed start left an entity without users
   /\ KFOn(KFOrphan) /\ e.op = "resume" /\ ~e.ok /\ ~e.quit[e.task] /\ e.ent[e.tgt[e.task]] = 0
 SharedNow(e) == \* the streams of other tasks of the same target shrank while this task was stopped
   IF KFOn(KFShared) /\ e.op \in {"create", "pause", "resume", "delete"}
-    THEN {u \in Tasks : u # e.task /\ e.tgt[u] = e.tgt[e.task] /\ e.reg[u] < reg[u] /\ e.reg[e.task] = 0}
+    THEN {u \in Tasks : u # e.task /\ e.tgt[u] = e.tgt[e.task] /\ e.reg[u] < reg[u]}
     ELSE {}
 
 JoinedNow(e) == \* the stopped task keeps a stream on a handler it shares with the other task of its target
